@@ -19,6 +19,7 @@ from bacpypes.service.detect import DetectionMonitor, DetectionAlgorithm
 from bacpypes.apdu import SubscribeCOVRequest, ConfirmedCOVNotificationRequest, UnconfirmedCOVNotificationRequest
 from bacpypes.pdu import LocalStation
 
+NSUBS = 4 if __import__("os").environ.get("VERIF_TIER") == "thorough" else 3        # subscriptions per object: range(NSUBS) (structural bound)
 A, B = LocalStation(1), LocalStation(2)
 OBJ_ID = ('analogValue', 1)
 
@@ -109,7 +110,7 @@ def _monitored(b, name, app=None):
 
 def _subscription(b, name, obj, i):
     cov = object.__new__(Subscription)
-    cov.__dict__.update(obj_ref=obj, client_addr=OneOf(A, B).build(b, '%s.sub%d.client' % (name, i)), proc_id=Int(0, 3).build(b, '%s.sub%d.proc' % (name, i)),
+    cov.__dict__.update(obj_ref=obj, client_addr=OneOf(A, B).build(b, '%s.sub%d.client' % (name, i)), proc_id=Int(0, 4).build(b, '%s.sub%d.proc' % (name, i)),
                         obj_id=OBJ_ID, confirmed=Bool().build(b, '%s.sub%d.confirmed' % (name, i)),
                         lifetime=Int(0).build(b, '%s.sub%d.lifetime' % (name, i)), covIncrement=None,
                         taskTime=Real(0).build(b, '%s.sub%d.taskTime' % (name, i)), isScheduled=Bool().build(b, '%s.sub%d.isScheduled' % (name, i)))
@@ -222,7 +223,7 @@ def notified_ok(det, subs, notes, now):
 _GHOSTS = {"TaskManager": ("bacpypes.service.cov", GhostTaskManager), "Any": ("bacpypes.service.cov", GhostDatum)}
 
 for _cls in (COVIncrementCriteria, GenericCriteria):
-    for _n in range(3):
+    for _n in range(NSUBS):
         contract("bacpypes.service.detect:DetectionAlgorithm._execute", name="bacpypes.service.detect:DetectionAlgorithm._execute[%s, %d subscriptions]" % (_cls.__name__, _n),
             params={"self": Criterion(_cls, _n)},
             globals_=dict((k, v) for k, v in _GHOSTS.items()),
@@ -332,7 +333,7 @@ def subscribe_ok(app, apdu, old_subs, responses, deferred_calls):
     return (len(deferred_calls) == 1 and deferred_calls[0][0].__self__ is det and deferred_calls[0][0].__func__ is COVIncrementCriteria.send_cov_notifications
             and deferred_calls[0][1] is cov and app.cov_detections.get(det.obj) is det and watched(det))
 
-for _n in range(3):
+for _n in range(NSUBS):
     contract("bacpypes.service.cov:ChangeOfValueServices.do_SubscribeCOVRequest",
         name="bacpypes.service.cov:ChangeOfValueServices.do_SubscribeCOVRequest[%d subscriptions]" % _n,
         params={"self": AppOf(_n), "apdu": SubscribeReq()},
@@ -368,7 +369,7 @@ def listed_ok(result, dev, now):
             return False
     return True
 
-for _n in range(3):
+for _n in range(NSUBS):
     contract("bacpypes.service.cov:ActiveCOVSubscriptions.ReadProperty", name="bacpypes.service.cov:ActiveCOVSubscriptions.ReadProperty[%d subscriptions]" % _n,
         params={"self": Fn(lambda b, name: ActiveCOVSubscriptions()), "obj": DeviceOf(_n), "arrayIndex": Const(None)},
         globals_={"TaskManager": ("bacpypes.service.cov", GhostTaskManager)},
